@@ -536,6 +536,8 @@ func parseRib(data []byte, family bgp.Family, isAddPath bool) (*Rib, error) {
 		safi = data[2]
 		data = data[3:]
 		family = bgp.NewFamily(afi, safi)
+		// RIB_GENERIC: the record says which family it is for
+		u.Family = family
 	}
 	prefix, err := bgp.NLRIFromSlice(family, data)
 	if err != nil {
